@@ -206,6 +206,10 @@ def process_fn(repo, annot_rel, opts, mode, canary, base_variants):
     except lower.Unsupported as e:
         raise UnitProblem('unsupported construct in %s: %s' % (a.locator, e))
     rec.rules = e3log + log
+    for _l in log:      # rule D2 `Name = ..`: the verified function carries the new name in the generated file
+        _m = re.match(r'D2 hoist: free function named `(\w+)`', _l)
+        if _m:
+            rec.name = _m.group(1)
     text = rtok.render(lowered)
     if ctoks is not None:
         # vacuity canary: a renamed copy with `ensures false`, next to the unmodified function (callers keep
